@@ -133,6 +133,7 @@ impl<T: Clone + Number> Mesh2D<T> {
     /// Apply a function to the a specified variable in the mesh 
     #[inline]
     pub fn apply(&mut self, func: &dyn Fn(f64, f64) -> T, var: usize ) {
+        if var >= self.nvars { panic!( "Mesh2D apply: index larger than # variables." ); }
         for i in 0..self.nx {
             let x = self.x_nodes[i].clone();
             for j in 0..self.ny {
@@ -148,6 +149,7 @@ impl Mesh2D<f64> {
     /// Integrate a given variable over the domain (trapezium rule)
     #[inline]
     pub fn trapezium(&self, var: usize ) -> f64 {
+        if var >= self.nvars { panic!( "Mesh2D trapezium: index larger than # variables." ); }
         let mut sum: f64 = 0.0;
         for i in 0..self.nx-1 {
             let dx = self.x_nodes[ i + 1 ] - self.x_nodes[ i ];
@@ -165,6 +167,7 @@ impl Mesh2D<f64> {
     /// Integrate the square of a given variable over the domain (trapezium rule)
     #[inline]
     pub fn square_trapezium(&self, var: usize ) -> f64 {
+        if var >= self.nvars { panic!( "Mesh2D square_trapezium: index larger than # variables." ); }
         let mut sum: f64 = 0.0;
         for i in 0..self.nx-1 {
             let dx = self.x_nodes[ i + 1 ] - self.x_nodes[ i ];
